@@ -517,6 +517,15 @@ package gnet
 //@   ensures !old(c.opened) ==> err == net.ErrClosed
 //@   ensures nacb == old(nacb) + (old(aswvhook(a).callback) != nil ? 1 : 0)
 //
+// EventLoop.Close (called by the handler from inside a callback): closes the connection synchronously, like a Close action.
+//@ func (el *eventloop) Close(c Conn) (err error)
+//@   requires elwf(el) && typeis(c, "*conn") && ref(c) != nil && asconn(c).loop == el
+//@   requires asconn(c).opened && reg(el.connections, asconn(c).fd) != nil ==> CIx(asconn(c))
+//@   modifies-all-except eventloop, engine, Options, netpoll.Poller, listener, asyncWriteHook, asyncWritevHook, map[int]*listener, ghost:kdata, ghost:kpos, ghost:nopen, ghost:nacb if asconn(c).opened && reg(el.connections, asconn(c).fd) != nil
+//@   ensures asconn(c).loop == el && asconn(c).fd == old(asconn(c).fd) && elwf(el)
+//@   ensures old(asconn(c).opened && reg(el.connections, asconn(c).fd) != nil) ==> !asconn(c).opened && nclose[ref(c)] == 1 && owner[asconn(c).fd] == nil && CZ(asconn(c)) && !cerr[ref(c)]
+//@   ensures !old(asconn(c).opened && reg(el.connections, asconn(c).fd) != nil) ==> err == nil
+//
 // processIO: one epoll event of a stream connection: write before read, EPOLLRDHUP last; works on stale (closed) connections.
 //@ func (c *conn) processIO(fd int, ev netpoll.IOEvent, flags netpoll.IOFlags) (err error)
 //@   requires c != nil && c.loop != nil && elwf(c.loop) && !c.isDatagram
